@@ -210,7 +210,8 @@ func buildAll(race, cli, wasm bool) error {
 type propCfg struct {
 	Level     string
 	Rule      string
-	Race      bool // also run shards on the -race worker
+	Race      bool   // also run shards on the -race worker
+	RaceTier  string // "" = both tiers, "thorough" = only in the thorough tier
 	CLI, Wasm bool
 	Shards    int
 	Assume    []string
@@ -265,6 +266,9 @@ func runCheck(id, tier string) int {
 		}
 	}
 	startT := time.Now()
+	if cfg.Race && cfg.RaceTier == "thorough" && tier != "thorough" {
+		cfg.Race = false
+	}
 	if err := buildAll(cfg.Race, cfg.CLI, cfg.Wasm); err != nil {
 		fmt.Println("ERROR build:", err)
 		return 2
